@@ -14,7 +14,7 @@ use air_interpreter_interface::CallServiceResult;
 use serde_json::{json, Value};
 use std::collections::BTreeMap;
 
-fn par_workers<T: Sync, R: Send>(items: &[T], f: impl Fn(&mut Worker, &T) -> R + Sync) -> (Vec<R>, u64) {
+pub fn par_workers<T: Sync, R: Send>(items: &[T], f: impl Fn(&mut Worker, &T) -> R + Sync) -> (Vec<R>, u64) {
     let n = std::env::var("VERIF_WORKERS").ok().and_then(|s| s.parse().ok()).unwrap_or_else(|| std::thread::available_parallelism().map(|x| x.get()).unwrap_or(8)).min(items.len().max(1));
     let next = std::sync::atomic::AtomicUsize::new(0);
     let out: std::sync::Mutex<Vec<(usize, R)>> = std::sync::Mutex::new(vec![]);
